@@ -18,6 +18,8 @@ TwoCounts == {"turnout", "dem"}
 Alphas3 == {"0.5", "0.7", "0.9"}
 \* two levels within the same percent, and a level that is not a "round" float (0.7 + 0.1 in binary floating point)
 Alphas5 == {"0.5", "0.7", "0.9", "0.909", "0.7999999999999999"}
+\* (0.904 and 0.9 agree to two decimals: a level key rounded to hundredths would merge them - seeded change C13_I)
+Alphas6 == Alphas5 \cup {"0.904"}
 Alphas2 == {"0.7", "0.9"}
 Aggs5 == {"postal_code", "county_fips", "county_classification", "district", "unit"}
 Aggs4 == {"postal_code", "county_fips", "county_classification", "unit"}
